@@ -346,7 +346,10 @@ def classify(desc):
 # taken modulo the number of exchanges the same operation needs in a
 # fault-free rehearsal of the history (see rehearse), so the fault always
 # lands inside the operation (exactly, up to the first fault of a history).
-HIST_KINDS = ("timeout", "transmission", "protocol")
+# "refuse": not a link fault - the tag answers the command with its refusal
+# (Type 2: NAK, the tag is halted afterwards) and executes nothing; tag types
+# whose simulator has no such answer lose the command instead
+HIST_KINDS = ("timeout", "transmission", "protocol", "refuse")
 
 
 def hist_fault(p_none=2):
@@ -408,6 +411,37 @@ def t1t_hist():
         t1t_desc().map(fix),
         t1t_desc().map(lambda d: dict(d, size=63, hr1=0x4C)),
         t1t_desc().map(lambda d: dict(d, size=14, hr1=0x48)))
+
+
+def sector_hist():
+    """strategy for histories on Type 2 Tags of more than one sector: a tag
+    of t2t_sector_desc, an old message, 2..5 operations that are mostly
+    assignments long enough to reach beyond the first sector, faults
+    (refusals by the tag among them) late in an operation"""
+    ln = st.one_of(st.sampled_from([["cap", 0], ["cap", -1], ["cap", -3],
+                                    ["pm", 900], ["pm", 700], ["abs", 1100],
+                                    ["abs", 1030], ["abs", 1000]]),
+                   st.tuples(st.just("pm"), st.integers(400, 1000)),
+                   st.tuples(st.just("abs"), st.integers(0, 60)))
+    fault = st.one_of(st.none(), st.tuples(
+        st.integers(0, 600), st.sampled_from(HIST_KINDS + ("refuse",)),
+        st.sampled_from([1, 1, 2, 3, 0]), st.sampled_from(["cmd", "rsp"])
+    ).map(list))
+    write = st.fixed_dictionaries({
+        "op": st.just("write"), "len": ln, "seed": st.integers(0, 3),
+        "again": st.booleans(), "fault": fault})
+    other = st.one_of(
+        st.fixed_dictionaries({"op": st.just("read"), "fault": fault}),
+        st.fixed_dictionaries({"op": st.just("changed"), "fault": fault}),
+        st.fixed_dictionaries({"op": st.just("format"),
+                               "version": st.none(),
+                               "wipe": st.one_of(st.none(),
+                                                 st.integers(0, 255)),
+                               "fault": fault}))
+    return st.fixed_dictionaries({
+        "tag": t2t_sector_desc(), "old": ln, "old_seed": st.integers(0, 3),
+        "ops": st.lists(st.one_of(write, write, write, other), min_size=2,
+                        max_size=5)})
 
 
 def hist_desc(t2t=4, t1t=3, t3t=1, t3e=1, t4t=2, t3s=0):
